@@ -623,6 +623,10 @@ func runDownload(id int, sc scenario, variant int, base string) (res result) {
 	case "cancel":
 		px.arm(budget, cancel)
 	}
+	pauseAt := -1
+	if sc.Kind == "pause" {
+		pauseAt = sc.P * unit
+	}
 	var (
 		got  []byte
 		rErr error
@@ -637,6 +641,10 @@ func runDownload(id int, sc scenario, variant int, base string) (res result) {
 			for {
 				n, err := rc.Read(buf)
 				got = append(got, buf[:n]...)
+				if pauseAt >= 0 && len(got) >= pauseAt {
+					pauseAt = -1
+					time.Sleep(5 * time.Second) // the caller is busy with what it has read so far
+				}
 				if err == io.EOF {
 					break
 				}
@@ -661,7 +669,7 @@ func runDownload(id int, sc scenario, variant int, base string) (res result) {
 		}
 		return fail("garbled", fmt.Sprintf("the %d bytes delivered before the error are not a prefix of the content (first difference at offset %d): %s", len(got), first, where))
 	}
-	if sc.Kind == "none" && rErr != nil {
+	if (sc.Kind == "none" || sc.Kind == "pause") && rErr != nil {
 		return fail("failed", "a read over a healthy connection failed: "+where)
 	}
 	return res
